@@ -1,7 +1,8 @@
 (* C09: user metadata crosses the wire unchanged and reserved headers never leak.
    Theorems only; each is closed by [exact] of a lemma from proof/MDWire_proofs.v.
-   Strings are byte lists; a Go map is an association list in ranging order; [rpc] is one
-   unary RPC: NewOutgoingContext(md), AppendToOutgoingContext(calls...), the client's
+   Strings are byte lists; a Go map is an association list in ranging order; [rpc auth mode]
+   is one RPC (mode 0 unary with grpc.SetHeader/SetTrailer, 1 server-streaming with
+   ServerStream.SetHeader, 2 server-streaming with SendHeader, 3 client-streaming): NewOutgoingContext(md), AppendToOutgoingContext(calls...), the client's
    validation and header assembly, the server's operateHeaders, the handler's
    SetHeader(h)/SetTrailer(t), the server's header and trailer frames, the client's
    operateHeaders.  HPACK/framing is an order-preserving list transport. *)
@@ -29,14 +30,16 @@ Print Assumptions C09_b64_padded_roundtrip.
    is the transport's :authority, content-type, user-agent followed by [group] of the
    user's non-reserved pairs (appended keys lowercased); Header() is content-type followed
    by the group of the handler's non-reserved header pairs; Trailer() is the group of its
-   non-reserved trailer pairs. *)
-Theorem C09_faithful : forall auth md calls h t,
+   non-reserved trailer pairs.  The same on every RPC shape ([mode] is arbitrary); the
+   handler's metadata is valid metadata too. *)
+Theorem C09_faithful : forall auth mode md calls h t,
   valid_user md calls = true -> has_hop md calls = false ->
+  validate_md h = true -> validate_md t = true ->
   all_bytes (user_pairs md calls) -> all_bytes (pairs_of h) -> all_bytes (pairs_of t) ->
-  rpc auth md calls h t =
-    [0; 1; 1] ++ dump (transport_md auth ++ group (visible (user_pairs md calls)))
-           ++ dump ((n_content_type, [ct_grpc]) :: group (visible (pairs_of h)))
-           ++ dump (group (visible (pairs_of t))).
+  rpc auth mode md calls h t =
+    [0; 1; 1; 0] ++ dump (transport_md auth ++ group (visible (user_pairs md calls)))
+                 ++ dump ((n_content_type, [ct_grpc]) :: group (visible (pairs_of h)))
+                 ++ dump (group (visible (pairs_of t))).
 Proof. exact rpc_faithful. Qed.
 Print Assumptions C09_faithful.
 
@@ -64,8 +67,8 @@ Print Assumptions C09_reserved_not_surfaced.
 (* "invalid user metadata fails the RPC with INTERNAL before anything is sent": code 13,
    handler not invoked, no header field written to the wire (third component 0), no
    header, no trailer *)
-Theorem C09_invalid_rejected : forall auth md calls h t, valid_user md calls = false ->
-  rpc auth md calls h t = [13; 0; 0] ++ dump [] ++ dump [] ++ dump [].
+Theorem C09_invalid_rejected : forall auth mode md calls h t, valid_user md calls = false ->
+  rpc auth mode md calls h t = [13; 0; 0; 0] ++ dump [] ++ dump [] ++ dump [].
 Proof. exact rpc_invalid_rejected. Qed.
 Print Assumptions C09_invalid_rejected.
 
@@ -74,12 +77,58 @@ Print Assumptions C09_invalid_rejected.
    fail the RPC with INTERNAL (early abort), and connection resets the stream. *)
 Theorem C09_hop_names_refuted :
   valid_user md_host1 [] = true /\ valid_user md_host2 [] = true /\ valid_user md_conn [] = true /\
-  rpc [97] md_host1 [] [] [] = expect_ok [97] [] [] [] [] /\
-  rpc [97] md_host1 [] [] [] <> expect_ok [97] md_host1 [] [] [] /\
-  rpc [97] md_host2 [] [] [] = fail_obs 13 1 [(n_content_type, [ct_grpc])] /\
-  rpc [97] md_conn [] [] [] = fail_obs 13 1 [].
+  rpc [97] 0 md_host1 [] [] [] = expect_ok [97] [] [] [] [] /\
+  rpc [97] 0 md_host1 [] [] [] <> expect_ok [97] md_host1 [] [] [] /\
+  rpc [97] 0 md_host2 [] [] [] = fail_obs 13 1 [(n_content_type, [ct_grpc])] /\
+  rpc [97] 0 md_conn [] [] [] = fail_obs 13 1 [].
 Proof. exact hop_names_refuted. Qed.
 Print Assumptions C09_hop_names_refuted.
+
+(* Server side of "invalid user metadata fails the RPC with INTERNAL before anything is sent":
+   ServerStream.SetHeader / SendHeader refuse invalid header metadata with INTERNAL, nothing
+   of it is sent and the RPC fails with INTERNAL ... *)
+Theorem C09_stream_header_refused : forall auth mode md calls h t,
+  valid_user md calls = true -> has_hop md calls = false -> all_bytes (user_pairs md calls) ->
+  mode <> 0 -> validate_md h = false ->
+  rpc auth mode md calls h t =
+    [13; 1; 1; 13] ++ dump (transport_md auth ++ group (visible (user_pairs md calls)))
+                   ++ dump [] ++ dump [(n_content_type, [ct_grpc])].
+Proof. exact stream_header_refused. Qed.
+Print Assumptions C09_stream_header_refused.
+
+(* ... but the unary helpers grpc.SetHeader/SetTrailer(ctx, md) and ServerStream.SetTrailer do
+   not: a value with byte 0x80 is accepted, sent and delivered (the RPC succeeds); a value
+   with DEL is accepted and sent, and it is the client's HTTP/2 framer that fails the RPC. *)
+Theorem C09_server_md_unvalidated_refuted :
+  validate_md h_hi = false /\ validate_md h_del = false /\
+  rpc [97] 0 [] [] h_hi [] = [0; 1; 1; 0] ++ dump (transport_md [97]) ++
+                             dump [(n_content_type, [ct_grpc]); ([104], [[97; 128]])] ++ dump [] /\
+  rpc [97] 0 [] [] h_del [] = [13; 1; 1; 0] ++ dump (transport_md [97]) ++ dump [] ++ dump [] /\
+  rpc [97] 1 [] [] [] h_hi = [0; 1; 1; 0] ++ dump (transport_md [97]) ++
+                             dump [(n_content_type, [ct_grpc])] ++ dump [([104], [[97; 128]])] /\
+  rpc [97] 1 [] [] h_hi [] = [13; 1; 1; 13] ++ dump (transport_md [97]) ++ dump [] ++
+                             dump [(n_content_type, [ct_grpc])].
+Proof. exact server_md_unvalidated_refuted. Qed.
+Print Assumptions C09_server_md_unvalidated_refuted.
+
+(* "values padded or unpadded in base64 from a peer" / "nor surfaced": a raw HTTP/2 peer sends
+   the transport's fields followed by arbitrary plain extra fields (any names other than
+   content-type / user-agent / connection / host and pseudo-headers; -bin values any base64,
+   padded or not): the handler is invoked and sees the transport's three entries plus the
+   non-reserved extra fields, -bin values decoded, grouped per key in order; reserved names
+   (te, grpc-status, grpc-message, grpc-timeout, ...) are dropped. *)
+Theorem C09_peer_fields : forall auth extra, raw_plain extra = true ->
+  raw_rpc auth extra = [1; 0] ++ dump (transport_md auth ++ group (raw_decoded extra)).
+Proof. exact raw_faithful. Qed.
+Print Assumptions C09_peer_fields.
+
+Theorem C09_peer_padded_example :
+  raw_rpc [97] [([107;45;98;105;110], pad64 (enc64 [0; 255; 97; 98]))] =
+    [1; 0] ++ dump (transport_md [97] ++ [([107;45;98;105;110], [[0; 255; 97; 98]])]) /\
+  raw_rpc [97] [([107;45;98;105;110], enc64 [0; 255; 97; 98])] =
+    [1; 0] ++ dump (transport_md [97] ++ [([107;45;98;105;110], [[0; 255; 97; 98]])]).
+Proof. exact raw_padded_example. Qed.
+Print Assumptions C09_peer_padded_example.
 
 (* The executable predicate evaluated on implementation traces holds on every model trace *)
 Theorem C09_holds_on_every_model_trace : forall cfg ops,
@@ -88,14 +137,14 @@ Theorem C09_holds_on_every_model_trace : forall cfg ops,
 Proof. exact model_trace_holds. Qed.
 Print Assumptions C09_holds_on_every_model_trace.
 
-(* non-vacuity: md {"a-bin": ["\xff"]}, AppendToOutgoingContext("A-Bin", "\x00", "TE", "x"),
+(* non-vacuity: client-streaming RPC, md {"a-bin": ["\xff"]}, AppendToOutgoingContext("A-Bin", "\x00", "TE", "x"),
    header {"h": ["1"]}, trailer {"grpc-status": ["5"]} *)
 Example C09_witness :
-  forallb op_wf [[1; 1; 5;97;45;98;105;110; 1; 1;255; 1; 2; 5;65;45;66;105;110; 1;0; 2;84;69; 1;120;
+  forallb op_wf [[1; 3; 1; 5;97;45;98;105;110; 1; 1;255; 1; 2; 5;65;45;66;105;110; 1;0; 2;84;69; 1;120;
                   1; 1;104; 1; 1;49; 1; 11;103;114;112;99;45;115;116;97;116;117;115; 1; 1;53]] = true /\
-  run [1; 97] [[1; 1; 5;97;45;98;105;110; 1; 1;255; 1; 2; 5;65;45;66;105;110; 1;0; 2;84;69; 1;120;
+  run [1; 97] [[1; 3; 1; 5;97;45;98;105;110; 1; 1;255; 1; 2; 5;65;45;66;105;110; 1;0; 2;84;69; 1;120;
                 1; 1;104; 1; 1;49; 1; 11;103;114;112;99;45;115;116;97;116;117;115; 1; 1;53]] =
-  Some [[0; 1; 1; 4; 10;58;97;117;116;104;111;114;105;116;121; 1; 1;97; 5;97;45;98;105;110; 2; 1;255; 1;0;
+  Some [[0; 1; 1; 0; 4; 10;58;97;117;116;104;111;114;105;116;121; 1; 1;97; 5;97;45;98;105;110; 2; 1;255; 1;0;
          12;99;111;110;116;101;110;116;45;116;121;112;101; 1; 2;67;84;
          10;117;115;101;114;45;97;103;101;110;116; 1; 2;85;65;
          2; 12;99;111;110;116;101;110;116;45;116;121;112;101; 1; 2;67;84; 1;104; 1; 1;49; 0]].
